@@ -366,6 +366,7 @@ func runC06(c *core.Ctx) {
 			summaryZones = append(summaryZones, z)
 		}
 	}
+	c06SummaryNoToday(c, summaryZones)
 	dir := filepath.Join(c.Work, "summary")
 	type target struct {
 		arg string
@@ -418,6 +419,50 @@ func midnightZones(z string) []string {
 		return []string{"UTC", z}
 	}
 	return []string{"UTC"}
+}
+
+// c06SummaryNoToday: an explicit date selects its calendar day whatever the clock and the zone
+// say; no --today is passed here (only explicit dates, never keywords).
+func c06SummaryNoToday(c *core.Ctx, zones []string) {
+	dir := filepath.Join(c.Work, "summary-no-today")
+	d0 := gen.Date{Y: 2021, M: 1, D: 4}
+	for li, layout := range []string{"2006/01/02", "2006/01/02 15:04"} {
+		var log, only gen.Log
+		for off := 0; off < 3; off++ {
+			for _, hhmm := range []string{"00:00", "08:00", "20:00", "23:59"} {
+				d := gen.Day{Date: d0.AddDays(off), Ents: []gen.Ent{{Name: fmt.Sprintf("meal%d%s", off, hhmm[:2]), Val: gen.Half(2 + off)}}}
+				if layout != "2006/01/02" {
+					d.Head = d.Date.Format("2006/01/02") + " " + hhmm
+				}
+				log = append(log, d)
+				if off == 1 {
+					only = append(only, d)
+				}
+			}
+		}
+		files := map[string]string{"food.yaml": c06Book, "log.yaml": gen.RenderLog(log, layout, nil), "logr.yaml": gen.RenderLog(only, layout, nil)}
+		run.WriteFiles(dir, files)
+		arg := d0.AddDays(1).Format("2006/01/02")
+		if layout != "2006/01/02" {
+			arg += " 00:00"
+		}
+		pre := []string{"--no-color", "-d", "food.yaml"}
+		if layout != "2006/01/02" {
+			pre = append(pre, "--date-format", layout)
+		}
+		ref := run.Exec(c.HR, append(append(append([]string{}, pre...), "-l", "logr.yaml"), "summary", arg), run.ExecOpts{Dir: dir, Env: map[string]string{"TZ": "UTC"}})
+		for _, z := range zones {
+			args := append(append(append([]string{}, pre...), "-l", "log.yaml"), "summary", arg)
+			res := run.Exec(c.HR, args, run.ExecOpts{Dir: dir, Env: map[string]string{"TZ": z}})
+			c.Eval(2)
+			c.Count("runs_summary_without_today", 1)
+			c.Nontrivial("summary-no-today", z, fmt.Sprint(li))
+			if res.Out != ref.Out || res.Exit != ref.Exit || ref.Exit != 0 {
+				c.Violation("summary|day-selection", fmt.Sprintf("summary %q without --today, TZ=%s, layout %q: differs from the summary of the log restricted to that calendar day", arg, z, layout),
+					caseDoc{Files: files, Args: args, Env: map[string]string{"TZ": z}, Expected: resDoc(ref), Observed: resDoc(res)})
+			}
+		}
+	}
 }
 
 func ds(d *gen.Date) string {
